@@ -82,3 +82,47 @@ spec("R2s-inline-helper", "R2", (SCHED, "        pre_step = earliest_pending_ste
 spec("R2s-helper-min", "R2", (SCHED, "    if sim.current_step is not None:\n        return sim.current_step\n    if sim.next_steps:\n        return sim.next_steps[0]\n    return None", "    if sim.current_step is not None:\n        return min(sim.current_step, sim.next_steps[0]) if sim.next_steps else sim.current_step\n    if sim.next_steps:\n        return sim.next_steps[0]\n    return None"))
 spec("R2s-max-distributed", "R2", (SCHED, "    return min([*ancs_next_steps, *own_next_step, until + 1]) - 1", "    return min([*[a - 1 for a in ancs_next_steps], *[o - 1 for o in own_next_step], until])"))
 spec("R2s-min-args", "R2", (SCHED, "    current_step_prog = [sim.current_step] if sim.current_step else []", "    current_step_prog = [sim.current_step] if sim.current_step is not None else []"))
+
+# ----------------------------------------------------------------------------- R11
+_TBCHK = "    if sim.type == 'time-based' and next_step_time is None:\n        raise SimulationError(\n            'a time-based simulator must always return a next step, but the step '\n            f'method of simulator \"{sim.sid}\" returned None'\n        )\n"
+sens("R11-revert-D8", "R11", "R11/", (SCHED, _TBCHK, "    if sim.type == 'time-based':\n        assert next_step_time, 'A time-based simulator must always return a next step'\n"))
+sens("R11-later-strict", "R11", "R11/not-later", (SCHED, "        if next_step_time <= sim.current_step.time:", "        if next_step_time < sim.current_step.time:"))
+sens("R11-truthy-reply", "R11", "R11/not-later", (SCHED, "    if next_step_time is not None:\n        if not isinstance", "    if next_step_time:\n        if not isinstance"))
+sens("R11-until-inclusive", "R11", "R11/schedule", (SCHED, "        if next_step_time < world.until:", "        if next_step_time <= world.until:"))
+sens("R11-float-ok", "R11", "R11/not-int", (SCHED, "if not isinstance(next_step_time, int):", "if not isinstance(next_step_time, (int, float)):"))
+sens("R11-valueerror", "R11", "R11/exc", (SCHED, "        if next_step_time <= sim.current_step.time:\n            raise SimulationError(", "        if next_step_time <= sim.current_step.time:\n            raise ValueError("))
+sens("R11-no-sid", "R11", "R11/exc", (SCHED, "                f\"step's time, but {next_step_time} <= {sim.current_step.time} \"\n                f'for simulator \"{sim.sid}\"'", "                f\"step's time, but {next_step_time} <= {sim.current_step.time} \""))
+sens("R11-out-ge", "R11", "R11/out", (SCHED, "        if sim.last_step.time > output_time:", "        if sim.last_step.time >= output_time:"))
+sens("R11-out-store-first", "R11", "R11/out", (SCHED, "        sim.output_time = output_tiered_time\n        if sim.last_step.time > output_time:", "        sim.output_time = output_tiered_time\n        if sim.outputs is not None:\n            sim.outputs[output_time] = data\n        if sim.last_step.time > output_time:"))
+sens("R11-out-no-check", "R11", "R11/out", (SCHED, "        if sim.last_step.time > output_time:\n            raise SimulationError(", "        if False:\n            raise SimulationError("))
+sens("R11-sched-no-lift", "R11", "R11/sched-value", (SCHED, "            next_step_tiered_time = TieredTime(next_step_time) + sim.from_world_time", "            next_step_tiered_time = TieredTime(next_step_time, *sim.current_step.tiers[1:])"))
+sens("R11-tb-only-check-type", "R11", "R11/", (SCHED, "    if sim.type == 'time-based' and next_step_time is None:", "    if sim.type == 'hybrid' and next_step_time is None:"))
+sens("R11-step-last-time", "R11", "R11/time-arg", (SCHED, "await sim.step(sim.current_step.time, inputs, max_advance)", "await sim.step(sim.progress.time.time, inputs, max_advance)"))
+
+spec("R11s-negated-cmp", "R11", (SCHED, "        if next_step_time <= sim.current_step.time:", "        if not next_step_time > sim.current_step.time:"))
+spec("R11s-restructure-none", "R11", (SCHED, _TBCHK, ""), (SCHED, "    if next_step_time is not None:\n        if not isinstance", "    if next_step_time is None:\n        if sim.type == 'time-based':\n            raise SimulationError(f'time-based simulator \"{sim.sid}\" returned no next step')\n    else:\n        if not isinstance"))
+spec("R11s-out-flip", "R11", (SCHED, "        if sim.last_step.time > output_time:", "        if output_time < sim.last_step.time:"))
+
+# ----------------------------------------------------------------------------- R3 / R12
+sens("R3-await-after-clear", "R3", "R3/P4", (SCHED, "            sim.current_step = None\n            notify_dependencies(sim)\n", "            sim.current_step = None\n            await asyncio.sleep(0)\n            notify_dependencies(sim)\n"))
+sens("R3-await-in-advance-loop", "R3", "R3/P4", (SCHED, "            for isim in world.sims.values():\n                advance_progress(isim, world)\n", "            for isim in world.sims.values():\n                advance_progress(isim, world)\n                await asyncio.sleep(0)\n"))
+sens("R3-pop-before-wait", "R3", "R3/P1", (SCHED, "            await wait_for_dependencies(sim, lazy_stepping)\n            sim.current_step = heappop(sim.next_steps)\n", "            sim.current_step = heappop(sim.next_steps)\n            await wait_for_dependencies(sim, lazy_stepping)\n"))
+sens("R3-sleep-before-pop", "R3", "R3/P1", (SCHED, "            await wait_for_dependencies(sim, lazy_stepping)\n            sim.current_step = heappop(sim.next_steps)\n", "            await wait_for_dependencies(sim, lazy_stepping)\n            await rt_sleep(sim, world)\n            sim.current_step = heappop(sim.next_steps)\n"))
+sens("R3-drop-stale-guard", "R3", "R3/P2", (SCHED, "            if sim.current_step != sim.progress.time:\n                raise SimulationError(", "            if False:\n                raise SimulationError("))
+sens("R3-stale-max-advance", "R3", "R3/P3", (SCHED, "            await wait_for_dependencies(sim, lazy_stepping)\n", "            max_advance = get_max_advance(world, sim, until)\n            await wait_for_dependencies(sim, lazy_stepping)\n"), (SCHED, "            input_data = get_input_data(world, sim)\n            max_advance = get_max_advance(world, sim, until)\n", "            input_data = get_input_data(world, sim)\n"))
+sens("R3-advance-own-only", "R3", "R3/P4", (SCHED, "            for isim in world.sims.values():\n                advance_progress(isim, world)\n", "            advance_progress(sim, world)\n"))
+sens("R3-advance-successors-only", "R3", "R3/P4", (SCHED, "            for isim in world.sims.values():\n                advance_progress(isim, world)\n", "            for isim in [sim, *sim.successors]:\n                advance_progress(isim, world)\n"))
+sens("R3-no-initial-advance", "R3", "R3/P5", (SCHED, "    try:\n        advance_progress(sim, world)\n        while await", "    try:\n        while await"))
+sens("R12-gt", "R3", "R3/R12", (SCHED, "t >= world.max_loop_iterations for t in sim.current_step.tiers[1:]", "t > world.max_loop_iterations for t in sim.current_step.tiers[1:]"))
+sens("R12-tiers2", "R3", "R3/R12", (SCHED, "t >= world.max_loop_iterations for t in sim.current_step.tiers[1:]", "t >= world.max_loop_iterations for t in sim.current_step.tiers[2:]"))
+sens("R12-first-subtier", "R3", "R3/R12", (SCHED, "t >= world.max_loop_iterations for t in sim.current_step.tiers[1:]", "t >= world.max_loop_iterations for t in sim.current_step.tiers[1:2]"))
+sens("R12-all", "R3", "R3/R12", (SCHED, "            if any(\n                t >= world.max_loop_iterations", "            if sim.current_step.tiers[1:] and all(\n                t >= world.max_loop_iterations"))
+sens("R12-bound-plus", "R3", "R3/R12", (SCEN, "        self.max_loop_iterations = max_loop_iterations\n", "        self.max_loop_iterations = max_loop_iterations + 1\n"))
+sens("R3-heap-append", "R3", "R3/P6", (SIMM, "        hq.heappush(self.next_steps, tiered_time)", "        self.next_steps.append(tiered_time)"))
+sens("R3-step-request-args", "R3", "R3/P3b", (SIMM, 'return await self._proxy.send(["step", (time, inputs, max_advance), {}])', 'return await self._proxy.send(["step", (time, inputs, time), {}])'))
+sens("R3-step-drop-max-advance", "R3", "R3/P3b", (SCHED, "next_step_time = await sim.step(sim.current_step.time, inputs, max_advance)", "next_step_time = await sim.step(sim.current_step.time, inputs, world.until)"))
+
+spec("R3s-notify-before-clear", "R3", (SCHED, "            sim.current_step = None\n            notify_dependencies(sim)\n", "            notify_dependencies(sim)\n            sim.current_step = None\n"))
+spec("R3s-inline-args", "R3", (SCHED, "            input_data = get_input_data(world, sim)\n            max_advance = get_max_advance(world, sim, until)\n            await step(world, sim, input_data, max_advance)", "            await step(world, sim, get_input_data(world, sim), get_max_advance(world, sim, until))"))
+spec("R3s-guard-flip", "R3", (SCHED, "            if sim.current_step != sim.progress.time:", "            if not (sim.progress.time == sim.current_step):"))
+spec("R12s-flip", "R3", (SCHED, "t >= world.max_loop_iterations for t in sim.current_step.tiers[1:]", "world.max_loop_iterations <= sub for sub in sim.current_step.tiers[1:]"))
